@@ -27,6 +27,11 @@ Kernels (DESIGN.md section 4, C06):
        different model - and both results are compared with the oracle.
   K3   contexts restricted to a simple expression: `line-num INTEGER-MATCHER` inside line-matcher
        expressions; `line-num == K0 && A` is `(line-num == K0) && A`, never `line-num (== K0 && A)`.
+  K4   a line break between the keyword of a primitive that nests another expression (`line-num`, `num-lines`,
+       `num-files`, `contents`, `dir-contents`, `every|any line|file :`, `-selection`, `-with-pruned`, `-transformed-by`,
+       `filter`, `replace -at`) and that expression changes nothing: same complete object state of the parser's result
+       as for the one-line text (parse level, every host type whose primitives nest expressions).  K3 and K3b put line
+       breaks at that position too and compare VALUES where an in-memory model exists.
   K3b  simple contexts of the text matcher: `-transformed-by T M` and `every|any line : LM` bind ONE simple
        expression ("may not contain infix operators (unless inside parentheses)"): `-transformed-by T A && B` is
        `( -transformed-by T A ) && B` - B is asked about the ORIGINAL text.  In-memory text model, T a stub
@@ -313,7 +318,9 @@ def _gap_info(units):
         elif u == ')':
             depth -= 1
         if u in R.UNIT_CONTEXT:
-            out.append((False, False))  # the argument syntax of a primitive is not this property's subject
+            # between the keyword of a primitive that takes a nested expression and that expression: the operand may
+            # follow on a later line, as after `!` and after an infix operator
+            out.append((True, True))
         else:
             out.append((depth >= 1 or u in INFIX or u == '!', True))
     return out
@@ -395,6 +402,13 @@ def _k1_items(case, trees=None):
             for simple, cur in case.get('variants', VARIANTS):
                 gen = t if (permitted and not simple and not (cur and lead_nl)) else None
                 yield toks, src, simple, cur, gen
+            if R.CONTEXT_UNIT['X'] in units and not any('\n' in g for g in gaps):
+                # a line break inside the keyword part `-transformed-by <here> T`: the transformer is a nested
+                # (simple) expression too and may follow on a later line
+                for brk in ('\n', ' \n   '):
+                    src2 = src.replace('-transformed-by T', '-transformed-by' + brk + 'T')
+                    for simple, cur in case.get('variants', VARIANTS):
+                        yield toks, src2, simple, cur, (t if (permitted and not simple) else None)
 
 
 # ---- K3: line-num INTEGER-MATCHER inside line-matcher expressions
@@ -478,6 +492,75 @@ def _k3b_items(case):
         yield it
 
 
+# ---- K4: a line break between the keyword of a primitive that nests another expression and that expression
+#
+# ` @ ` marks the positions: keyword -> nested expression (and, for two-argument primitives, between the nested
+# expressions).  Parse level: the models of most of these primitives are files / directories (C05, C15).
+
+K4_FORMS = {
+    'line': ('line-num @ == 1', 'line-num @ ( == 1 || > 2 )', 'line-num @ ! == 1', 'line-num @ constant true',
+             'contents @ A', 'contents @ ( A || B )', 'contents @ num-lines @ == 1', 'contents @ ! empty'),
+    'string': ('num-lines @ == 1', 'num-lines @ ( >= 1 && <= 2 )', 'num-lines @ ! == 1', 'every line : @ P', 'any line : @ P',
+               'every line : @ line-num @ == 1', 'any line : @ contents @ A', '-transformed-by @ T @ A',
+               '-transformed-by @ T @ num-lines @ == 1', '-transformed-by @ filter @ line-num @ == 1 @ A',
+               '-transformed-by @ ( T | T ) @ ( A && B )'),
+    'file': ('contents @ A', 'contents @ num-lines @ == 1', 'dir-contents @ B', 'dir-contents -recursive @ B',
+             'dir-contents @ num-files @ == 1', 'dir-contents @ ( B || B )'),
+    'files': ('num-files @ == 1', 'num-files @ ( >= 1 && <= 2 )', 'every file : @ A', 'any file : @ A', '-selection @ A @ B',
+              '-with-pruned @ A @ B', 'every file : @ contents @ A', '-selection @ A @ num-files @ == 1',
+              'any file : @ dir-contents @ num-files @ == 0'),
+    'transformer': ('filter @ P', 'filter @ line-num @ == 1', 'filter @ contents @ A', 'filter @ ( P || Q )',
+                    'replace -at @ P a b', 'replace -at @ line-num @ == 1 a b', 'filter @ ! line-num @ ( == 1 || == 2 )'),
+}
+K4_BREAKS = ('\n', ' \n   ', '\n\n')
+
+
+def _k4_wraps(host):
+    if host == 'transformer':
+        return ('{}', '( {} )', '{} | A', 'A | {}', '(\n{} | A )')
+    return ('{}', '( {} )', '! {}', 'A && {}', '{} || A', '( A ||\n{} )')
+
+
+def _stage1_k4(case):
+    """-> (bad, [], n): for every form, surrounding and subset of marked positions, the text with line breaks at these
+    positions is read by the real parser exactly as the one-line text (same complete object state of the result,
+    nothing left)."""
+    from harness import _C06_real as X
+    host = case['host']
+    forms = K4_FORMS[host]
+    bad = []
+    n = 0
+    for fi, form in enumerate(forms):
+        parts = form.split(' @ ')
+        for wrap in _k4_wraps(host):
+            for simple, cur in VARIANTS:
+                one = X._real_parse(host, simple, cur, wrap.format(' '.join(parts)))
+                if case.get('oracle_bug') == 'other-form':
+                    # seeded oracle error: the one-line text of ANOTHER form is taken as the reading
+                    one = X._real_parse(host, simple, cur, wrap.format(forms[(fi + 1) % len(forms)].replace(' @ ', ' ')))
+                n += 1
+                if one[0] != 'ok':
+                    bad.append(('the one-line text is rejected', wrap.format(' '.join(parts)), simple, cur, one[1]))
+                    continue
+                fp1 = X.fingerprint(one[1], X.OPAQUE)
+                npos = len(parts) - 1
+                for mask in range(1, 2 ** npos):
+                    for brk in K4_BREAKS:
+                        text = parts[0]
+                        for j in range(npos):
+                            text += (brk if mask & (1 << j) else ' ') + parts[j + 1]
+                        src = wrap.format(text)
+                        r = X._real_parse(host, simple, cur, src)
+                        n += 1
+                        if r[0] != 'ok':
+                            bad.append(('rejected, but the same text on one line is accepted', src, simple, cur, r[1]))
+                        elif r[3].split() != one[3].split():
+                            bad.append(('unconsumed rest differs from the one-line text: %r' % (one[3],), src, simple, cur, r[3]))
+                        elif X.fingerprint(r[1], X.OPAQUE) != fp1:
+                            bad.append(('read differently from the same text on one line', src, simple, cur, ''))
+    return (bad, [], n)
+
+
 # --------------------------------------------------------------------------- stage 1: the concrete stage
 
 _STAGE1 = {}
@@ -511,6 +594,8 @@ def _stage1(case):
 
 def _stage1_compute(case):
     from harness import _C06_real as X
+    if case['family'] == 'K4':
+        return _stage1_k4(case)
     if True:
         host = case['host']
         levels, prefix = _grammar_of(host)
@@ -957,8 +1042,47 @@ def _k1_obligations(tier) -> List[Ob]:
     return obs
 
 
+def _k4_obligations(tier) -> List[Ob]:
+    obs = []
+    for host in ('line', 'string', 'file', 'files', 'transformer'):
+        for bug in (None,) + (('other-form',) if host == 'string' else ()):
+            case = dict(family='K4', host=host)
+            if bug:
+                case['oracle_bug'] = bug
+            obs.append(Ob(
+                name='K4:%s%s' % (host, ':seeded:' + bug if bug else ''), fn='k_trans' if host == 'transformer' else 'k_bool',
+                case=case, kernel='K4',
+                bound='%s host, PARSE LEVEL ONLY (nothing symbolic: the models of these primitives are files / directories): the forms %s '
+                      '(` @ ` = between the keyword of a primitive that nests another expression and that expression), alone and as %s; '
+                      'every non-empty subset of the marked positions x line break in {LF, blank LF indentation, LF LF}; parsers full/simple x '
+                      'on-current-line/any-line; the result has the same complete object state as for the same text on one line' % (
+                          host, ' ; '.join('`%s`' % f for f in K4_FORMS[host]),
+                          ' / '.join('`%s`' % w.replace('\n', '<LF>').format('..') for w in _k4_wraps(host)[1:])),
+                timeout=300, expect=ob.REFUTE if bug else ob.CONFIRM, selector=True,
+                real=_real_for(host, K4_REAL[host]), stubs=(STUB_NOTRACE,),
+                outside=('the VALUE of the primitives of K4 (file- and directory-backed models: C05, C15); `exit-code`, `run` '
+                         '(instruction / program syntax)',),
+                entry='%s.parsers(b).full|simple .parse_from_token_parser' % PARSER_MODULE[host]))
+    return obs
+
+
+K4_REAL = {
+    'line': ('exactly_lib.impls.types.line_matcher.impl.line_number.parse_line_number',
+             'exactly_lib.impls.types.integer_matcher.parse_integer_matcher.parsers'),
+    'string': ('exactly_lib.impls.types.string_matcher.parse.num_lines.parse',
+               'exactly_lib.impls.types.integer_matcher.parse_integer_matcher.parsers',
+               'exactly_lib.impls.types.string_matcher.parse_string_matcher._parse_on_transformed',
+               'exactly_lib.impls.types.matcher.impls.parse_quantified_matcher.parse_after_quantifier_token'),
+    'file': ('exactly_lib.impls.types.file_matcher.parse_file_matcher._parse_regular_file_contents',
+             'exactly_lib.impls.types.file_matcher.parse_file_matcher._parse_dir_contents'),
+    'files': ('exactly_lib.impls.types.files_matcher.parse_files_matcher',
+              'exactly_lib.impls.types.matcher.impls.parse_quantified_matcher.parse_after_quantifier_token'),
+    'transformer': ('exactly_lib.impls.types.string_transformer.impl.filter.parse',),
+}
+
+
 def obligations(tier: str) -> List[Ob]:
-    return _k1_obligations(tier) + _k2_obligations(tier) + _witness_obligations()
+    return _k1_obligations(tier) + _k2_obligations(tier) + _k4_obligations(tier) + _witness_obligations()
 
 
 def selftest(tier: str) -> int:
